@@ -39,6 +39,21 @@ CLAIMED = {
         "carry explicitly and generators avoid.",
    technique="Coq proof (case analysis over the conversion table + arithmetic of the binary64 encoding) + correspondence",
    ref="5 (C07)"),
+ "C06": dict(
+   text="Coq theorems (Properties_C06.v, closed under the global context) about the byte-level model of the path "
+        "walker (Lookup.v: separator skipping, name scan, strtol with blanks/sign/saturation, index range check): for "
+        "every well-formed tree, every base setting, every setting below it and every spelling of its path (names or "
+        "bracketed decimal indices with any number of leading zeros, separators . : /, optional leading separator) the "
+        "lookup returns exactly that setting (induction over the spelling); the getPath() spelling is one of them; "
+        "whatever the walker returns is a non-empty path of an existing setting; after any spelled prefix a missing "
+        "member, an index >= length of any magnitude, or a component below a scalar gives NULL; a failing typed lookup "
+        "has no output. Tied to /repo by lookups on generated trees compared by index path (pointer identity in the "
+        "harness) with the model and with the documented resolution evaluated on the implementation's own dump.",
+   note="Trusted: as C05. The C++ getPath() itself is modelled (cpp_path) and not yet run through a C++ harness; the "
+        "C-side resolution of its output format is. Aggregates are assumed to have fewer than 2^32 children "
+        "(config_setting_t.length is an unsigned int).",
+   technique="Coq proof (induction over spelled paths against the byte-level walker) + correspondence",
+   ref="5 (C06)"),
 }
 
 REASON_PENDING = "not decided in the committed state of this round: the Coq theorem for this property is not yet in the tree, and a property is never claimed on testing alone (DESIGN.md section 11)"
